@@ -114,6 +114,8 @@ class Run:
             self.nodes.append(node)
             self.wr.append(weakref.ref(node))
 
+    late_errs = ()
+
     def now(self):
         return self.loop.time() if self.loop is not None else 0
 
@@ -179,7 +181,19 @@ class Run:
         if k == "combine_latest":
             kw = {}
             if nd.get("emit_on") is not None:
-                kw["emit_on"] = list(nd["emit_on"])
+                eo = list(nd["emit_on"])
+                # the API takes a stream, an index, or a list/tuple of either: all forms denote the same set of inputs
+                form = nd.get("emit_on_form", "list")
+                if form == "int" and len(eo) == 1:
+                    kw["emit_on"] = eo[0]
+                elif form == "stream" and len(eo) == 1:
+                    kw["emit_on"] = ups[eo[0]]
+                elif form == "streams":
+                    kw["emit_on"] = tuple(ups[j] for j in eo)
+                elif form == "mixed":
+                    kw["emit_on"] = [ups[j] if n % 2 else j for n, j in enumerate(eo)]
+                else:
+                    kw["emit_on"] = eo
             return ups[0].combine_latest(*ups[1:], **kw)
         if k == "zip_latest":
             return ups[0].zip_latest(*ups[1:])
@@ -283,11 +297,26 @@ class Run:
 
         def update(x, who=None, metadata=None):
             run.log.append(["arrive", idx, getattr(who, "_verif_idx", None), canon(x), tags_of(metadata)])
-            return orig_update(x, who=who, metadata=metadata)
+            try:
+                return orig_update(x, who=who, metadata=metadata)
+            except BaseException as e:
+                try:
+                    e._verif_from_update = True      # raised by (or below) some node's update(): a node's own code or a user function
+                except Exception:                    # noqa: BLE001 - exception types without a __dict__
+                    pass
+                raise
 
         def _emit(x, metadata=None):
             run.log.append(["emit", idx, canon(x), tags_of(metadata)])
-            return orig_emit(x, metadata=metadata)
+            try:
+                return orig_emit(x, metadata=metadata)
+            except RecursionError:
+                raise
+            except Exception as e:
+                if not getattr(e, "_verif_from_update", False):
+                    # raised by Stream._emit's own code (the delivery loop / reference bookkeeping), not by any update() below it
+                    run.log.append(["plumbing-raised", idx, type(e).__name__])
+                raise
 
         node.update = update
         node._emit = _emit
@@ -382,10 +411,17 @@ class Run:
                 self.jobs.pop(op["job"]).set_exception(ValueError("mapped coroutine failed"))
             elif kind == "multi":
                 # several operations in ONE loop callback (no settling in between): a completion racing an emission
-                for sub in op["ops"]:
+                for i, sub in enumerate(op["ops"]):
+                    if sub["op"] == "turns":
+                        # the remaining operations happen `n` loop iterations later (still without settling in between):
+                        # an emission placed at an exact distance from the wake-ups a completion causes
+                        self._later(sub["n"], op["ops"][i + 1:])
+                        break
                     err = self.do_sync(sub)
                     if err is not None:
                         return err
+            elif kind == "turns":
+                pass
             elif kind in ("counts", "links", "advance", "settle"):
                 pass
             else:
@@ -398,7 +434,25 @@ class Run:
             return "raised:" + name
         return None
 
+    def _later(self, n, rest):
+        import asyncio
+        aloop = asyncio.get_event_loop()
+        if isinstance(self.late_errs, tuple):
+            self.late_errs = []
+
+        def step(k):
+            if k > 0:
+                aloop.call_soon(step, k - 1)
+                return
+            err = self.do_sync({"op": "multi", "ops": rest})
+            if err is not None:
+                self.late_errs.append(err)
+        aloop.call_soon(step, max(int(n), 1) - 1)
+
     def observe(self, op, err):
+        if self.late_errs:
+            err = err or self.late_errs[0]
+            self.late_errs = []
         if op["op"] in ("drop", "disconnect", "destroy"):
             gc.collect()
         o = {"log": self.take_log(), "err": err}
